@@ -459,4 +459,47 @@ def run(ctx, prog):
         ctx.inst('C12.R7', pit.short, 'base = first Full with timestamp ≤ target in list order',
                  bool(re.search(r"Iterator>::next\(RestoreManager::list_backups\(arg:self\)", fbo)) and bool(base_ts) and bool(base_full) and bool(sets) and all(x not in r0 and x not in r1 for x in sets) and brk,
                  'full_backup = %s' % fbo[:120])
+    # ------------------------------------------------------------------ R8 restore by id follows the requested backup's own ancestry
+    ctx.rule('C12.R8', 'restore-by-id restores the requested backup\'s OWN chain: starting from the requested metadata, each further element is the backup named by the '
+                       'previous element\'s parent_id (loop on parent_id = Some, decode of that file, push), the walk ends at a Full or refuses, the chain is reversed '
+                       'before it is verified and extracted, the verification loop runs over that chain — and the selection is not delegated to the time-based '
+                       'lookup, which picks the newest Full before a timestamp (a different chain whenever another Full lies in between)')
+    rb = ctx.body('C12.R8', 'RestoreManager::restore_from_backup_with_options')
+    if rb is not None:
+        ov8 = flow.Origin(rb, stop_at_vars=True)
+        pit = [c for c in rb.calls if c.callee and re.search(r'restore_point_in_time', c.callee)]
+        ctx.inst('C12.R8', rb.short, 'the chain is not chosen by timestamp', not pit, 'calls to the point-in-time selection: %s' % [flow.short(c.callee) for c in pit])
+        pe = [(i_, tg) for i_, blk in enumerate(rb.blocks) if blk['t']['k'] == 'switch' and i_ in rb.live_blocks() for tg, p_ in flow.switch_edge_predicates(rb, i_, ov8)
+              if re.match(r'^variant\(var:(\w+)→BackupMetadata\.parent_id\) = Some$', p_)]
+        pushes = [c for c in rb.calls if c.callee and re.search(r'Vec(<.*>)?::push$', flow.short(c.callee)) and len(c.args) == 2 and 'BackupMetadata' in rb.locals[c.args[0]['pl']['l']]
+                  and 'Uuid' not in rb.locals[c.args[0]['pl']['l']].split('BackupMetadata')[0][-30:]]
+        pushes = [c for c in pushes if re.match(r'^var:\w+$', flow.render(ov8.of_operand(c.args[0]))) and 'tuple' not in flow.render(ov8.of_operand(c.args[1]))]
+        dec = [c for c in rb.calls if c.callee and re.search(r'serde_json::(de::)?from_str$', c.callee)]
+        ok_walk = bool(pe) and bool(pushes)
+        why = []
+        for c in pushes:
+            # the pushed element is decoded after the Some(parent_id) edge, in the same iteration
+            behind = any(c.bb not in rb.reach([0], avoid_edges=pe) and any(d.bb in (rb.reach([tg]) | {tg}) and rb.dominates(d.bb, c.bb) for d in dec) for (_, tg) in pe)
+            if not behind:
+                ok_walk = False
+                why.append('push at %s is not behind a decode on the Some(parent_id) edge' % c.loc)
+        # the path of the decoded file is built from that parent id
+        pid = rb.var_local('parent_id')
+        pid_o = [flow.render(ov8.of_local(l)) for l in (pid or [])]
+        ok_pid = any(re.match(r'^var:\w+→BackupMetadata\.parent_id@Some→Some\.0$', x) for x in pid_o)
+        ctx.inst('C12.R8', rb.short, 'ancestry walk: each further element is decoded from the previous element\'s parent_id', ok_walk and ok_pid,
+                 '; '.join(why) or 'Some(parent_id) edges %d, chain pushes %d, parent id = %s' % (len(pe), len(pushes), pid_o[:1]))
+        chv = flow.render(ov8.of_operand(pushes[0].args[0])) if pushes else '?'
+        rev = [c for c in rb.calls if c.callee and re.search(r'::reverse$', c.callee) and c.args and flow.render(ov8.of_operand(c.args[0])) == chv]
+        ver = rb.calls_to('RestoreManager::verify_backup_archive')
+        heads = [h for h in rb.calls if h.callee and h.is_('re:Iterator>::next$') and ver and rb.dominates(h.bb, ver[0].bb) and h.bb in rb.reach([ver[0].bb])]
+        src = util.loop_source(rb, heads[0]) if heads else '?'
+        rc = rb.var_local('restore_chain')
+        rco = flow.render(ov8.of_local(rc[0])) if rc else '?'
+        ok_rev = bool(rev) and bool(ver) and all(r_.bb not in rb.reach([ver[0].bb]) for r_ in rev) and 'restore_chain' in src and chv in rco
+        ctx.inst('C12.R8', rb.short, 'the chain is reversed (Full first) and is what the verification loop runs over', ok_rev,
+                 'reverse(%s): %d; verification loop over %s; restore_chain = %s' % (chv, len(rev), src[:60], rco[:90]))
+        full_e = [(i_, tg) for i_, blk in enumerate(rb.blocks) if blk['t']['k'] == 'switch' and i_ in rb.live_blocks() for tg, p_ in flow.switch_edge_predicates(rb, i_, ov8)
+                  if re.search(r'BackupMetadata\.backup_type', p_)]
+        ctx.inst('C12.R8', rb.short, 'the walk tests backup_type (ends at a Full, refuses a chain without one)', len(full_e) >= 3, 'backup_type tests: %d edges' % len(full_e))
     ctx.stat('functions_analysed', len(set(i['key'].split(' | ')[1] for i in ctx.instances)))
